@@ -76,6 +76,21 @@ func writerAPI(c *an.Ctx) *writerAPIInfo {
 				}
 				if cmp, ok := an.CmpOf(g); ok {
 					isLen := func(v ssa.Value) bool {
+						// a local that holds the length and is also read by a closure (a log line) lives in memory:
+						// written once, with len(b.buf)
+						if ld, isLd := v.(*ssa.UnOp); isLd && ld.Op == token.MUL {
+							if al, isAl := ld.X.(*ssa.Alloc); isAl {
+								var stores []*ssa.Store
+								for _, r := range *al.Referrers() {
+									if st, isSt := r.(*ssa.Store); isSt && st.Addr == ssa.Value(al) {
+										stores = append(stores, st)
+									}
+								}
+								if len(stores) == 1 {
+									v = stores[0].Val
+								}
+							}
+						}
 						call, ok := v.(*ssa.Call)
 						if !ok {
 							return false
